@@ -19,9 +19,13 @@ def gen_obj(rng, torch, torchtt):
             for n_ in N: t = np.multiply.outer(t, np.array([rng.gauss(0, 1) for _ in range(n_)]))
             A = A + t
         A = torch.tensor(A).to(dtype)
-        if kind == "svd": return torchtt.TT(A, eps=1e-6), kind                      # R holds numpy integers
+        npints = rng.random() < 0.4                                                  # mode sizes given as numpy integers (shapes computed with numpy)
+        if kind == "svd":
+            return (torchtt.TT(A, list(np.array(N, dtype=np.int64)), eps=1e-6) if npints else torchtt.TT(A, eps=1e-6)), kind + ("-npshape" if npints else "")   # R holds numpy integers
         h = len(N) // 2
-        return torchtt.TT(A, [(N[j], N[h + j]) for j in range(h)], eps=1e-6), kind
+        sh = [(N[j], N[h + j]) for j in range(h)]
+        if npints: sh = [(np.int64(a), np.int64(b)) for a, b in sh]
+        return torchtt.TT(A, sh, eps=1e-6), kind + ("-npshape" if npints else "")
     if kind == "sliced":                                                             # non-contiguous core views
         x = history.rand_tt(rng, dtype, N=[rng.choice([3, 4, 5]) for _ in range(max(d, 1))])
         return x[tuple(slice(rng.choice([0, 1]), None, rng.choice([1, 2])) for _ in x.N)], kind
@@ -73,7 +77,8 @@ def run(tier, seed, replay=None):
             metas.append((desc, history.encode_obj(y)))
             # copies
             for name, mk in (("clone", lambda: x.clone()), ("detach", lambda: x.detach()), ("cpu", lambda: x.cpu()),
-                             ("to", lambda: x.to(dtype=torch.complex128 if x.cores[0].dtype.is_complex else torch.float64)),
+                             ("to", lambda: (lambda tgt: rng.choice([lambda: x.to(dtype=tgt), lambda: x.to("cpu", tgt), lambda: x.to(device="cpu", dtype=tgt),
+                                                                           lambda: x.to(None, tgt), lambda: x.to(torch.device("cpu"), dtype=tgt)])())(torch.complex128 if x.cores[0].dtype.is_complex else torch.float64)),
                              ("numpy", lambda: x.numpy())):
                 try:
                     z = mk()
